@@ -310,7 +310,13 @@ def gen_nearmiss(rng):
     if shape == 9: stmt = f"s.o @= s.a {op} ({l1} if s.c else {l2})"
     elif shape == 10: stmt = f"s.o @= ({l1} if s.c else {l2})"
     elif shape == 11: stmt = f"s.o1 @= s.a {cmp_} ({l1} if s.c else {l2})"
-    else: stmt = f"s.o @= (s.b if s.c else {lit})" if rng.random() < 0.5 else f"s.o @= ({lit} if s.c else s.b)"
+    else:
+      # one literal branch, one sized branch - the sized one possibly NARROWER or wider than the context (either order, alone or
+      # under an operator): the literal adapts to the sized branch, the whole conditional then has exactly that width
+      wb = max(1, w + rng.choice([0, 0, -1, -1, 1, -3]))
+      small2 = rng.choice([0, 1, 1])
+      ie = rng.choice([f"(s.b if s.c else {small2})", f"({small2} if s.c else s.b)", f"(s.b if s.c else {lit})", f"({lit} if s.c else s.b)"])
+      stmt = rng.choice([f"s.o @= {ie}", f"s.o @= s.a {op} {ie}", f"s.o1 @= s.a {cmp_} {ie}"])
   elif shape == 13:
     l = [rng.choice([0, 1, 2, 3]), rng.choice([0, 1, 5]), lit]; rng.shuffle(l); wb = w
     stmt = f"s.o @= ({l[0]} if s.c else ({l[1]} if s.a[0] else {l[2]}))" if rng.random() < 0.5 else f"s.o @= (({l[0]} if s.a[0] else {l[1]}) if s.c else {l[2]})"
